@@ -101,6 +101,11 @@ CLAIMED = {
   "Model-driven exploration: FmtLayout.tla enumerates every sequence of <= 2 of 26 declaration kinds (fields, nested structs, field chains, lists, embeddings, let, attributes, for/if comprehensions, calls on one and several lines, optional/required fields, definitions, multi-line strings with interpolation, operator chains, pattern constraints, list comprehensions, aliases, ellipses, dynamic fields, unary operators, multi-line disjunctions) under a seeded sample of 6 (thorough 48) of 972 layouts (member separator, spaces after colons and around operators, redundant parentheses, blank lines, trailing commas, indentation) with comments in up to two of eight slots (doc, end of line, after an opening brace, before a closing bracket, between members, after a colon, after a list element, after an operator). Each file must parse; format.Source must succeed; the output must parse to the same position-free tree (node kinds, literal text with multi-line string indentation normalised, operators, attributes, every comment group with its doc/line flags and attachment position); formatting again must be byte-identical; format.Simplify output must parse and be idempotent; a sample goes through the cue binary (`cue fmt --files`, then `cue fmt --check`). One genuine defect found this way was repaired (fix: commit 5c6c9ae), one is recorded as known finding; a failing state is shrunk to (kind, comment slots) to name its class.",
   "trusted: TLC (enumeration), the renderer from states to text (files that do not parse are counted and fail the run above 20%), the tree dump; canary: a file with a moved comment must dump differently. The repository's own .cue corpus and token-level mutations of it are not part of the model-generated space (DESIGN.md §7); -s is only checked for parseability and idempotence.",
   "DESIGN.md §3 C08"),
+ "C02": ("exploration",
+  "TLA+ spec Pipeline.tla (the pipeline parse -> compile -> validate -> concrete -> export CUE/JSON/YAML as a state machine with ok/err outcomes only, stage-consistency rules, three runs that must agree; plus the input spaces: programs over a pool of erroneous / cyclic expressions, byte-level mutants, token soups) model-checked by TLC (TypeOK, Repeatable, ParseErrorEnds, DataExportsAgree, Terminates); every input run three times in isolated worker processes and the recorded traces validated by TLC against PipelineTrace.tla",
+  "Trace validation of real executions: each input is run in a context already used for other programs, in a fresh context and in another process, inside worker processes with a 10 s / 2 GB ceiling (a worker that dies, hangs or exceeds the ceiling yields an abort event for the program it was on and is restarted on the rest). The events (run, stage, ok/err/panic, digest of the printed CUE / JSON / YAML or of the full error text) of all three runs form one trace; TLC accepts it only if it is a behaviour of Pipeline.tla: stages in order, no outcome other than ok/err (a panic leaving the API, a stack overflow, a timeout have no action), compile error => validation and data exports fail, concrete => JSON and YAML succeed, JSON ok <=> YAML ok, all runs complete and equal event by event. Inputs: all 13 hand-picked cyclic / erroneous programs and a seeded sample of 2500 (thorough 40000) of the 10^6 programs a/b/c over a 103-expression pool, 1500 (20000) byte-level mutants of four seed programs, all token soups up to 2 (3) tokens. One genuine crash (stack overflow on a bound embedded next to a required field) was repaired (fix: a8de011); a context-history dependence of error text is recorded as known finding.",
+  "trusted: TLC, the worker's stage wrapper (recover per stage; canaries: a changed digest, a panic event and a truncated trace must be rejected by TLC). Not exhaustive: the program space is sampled, arbitrary byte strings are represented by mutants and soups only; non-determinism is only detected if it shows within three runs.",
+  "DESIGN.md §3 C02"),
 }
 
 NOT_YET = "check not built yet in this round (see DESIGN.md §8 for the order of construction)"
